@@ -486,8 +486,21 @@ func (e *Env) evalCall(n *ast.CallExpr) TV {
 		// forall(i, lo, hi, body)
 		id := n.Args[0].(*ast.Ident).Name
 		lo, hi := arg(1), arg(2)
-		lo, hi = e.coerce(lo, TV{x.GoInt(0), tInt})
-		_, hi = e.coerce(TV{x.GoInt(0), tInt}, hi)
+		lo, _ = e.coerce(lo, TV{x.GoInt(0), tInt})
+		hi, _ = e.coerce(hi, TV{x.GoInt(0), tInt})
+		// literal small ranges are expanded (no quantifier)
+		if lv, ok1 := x.litInt(asTerm(lo.V)); ok1 {
+			if hv, ok2 := x.litInt(asTerm(hi.V)); ok2 && hv-lv <= 8 {
+				var parts []*Term
+				for k := lv; k < hv; k++ {
+					parts = append(parts, asTerm(e.bind(id, x.GoInt(k), tInt).eval(n.Args[3]).V))
+				}
+				if fname == "forall" {
+					return TV{tt.And(parts...), tBool}
+				}
+				return TV{tt.Or(parts...), tBool}
+			}
+		}
 		bsort := "Int"
 		bv := tt.Bound(id, bsort)
 		var iv *Term = bv
@@ -534,6 +547,30 @@ func (e *Env) evalCall(n *ast.CallExpr) TV {
 		p := asTerm(arg(0).V)
 		h := x.heap(e.st, "G$owned", arraySort("Int", "Bool"))
 		return TV{tt.Select(h, p), tBool}
+	case "visited":
+		// visited(loopOrdinal, key): key has been yielded by the map iteration of that loop
+		ord, _ := x.litInt(asTerm(arg(0).V))
+		k := arg(1)
+		ks := asTerm(k.V).Sort
+		name := fmt.Sprintf("I$visited%d$%s", ord, ks)
+		h := x.heap(e.st, name, arraySort("Int", arraySort(ks, "Bool")))
+		return TV{tt.Select(tt.Select(h, tt.IntLit(0)), asTerm(k.V)), tBool}
+	case "pooltag":
+		return TV{tt.UF("pooltag$", "Int", asTerm(arg(0).V)), tInt}
+	case "tidof":
+		tn, _ := strconv.Unquote(n.Args[0].(*ast.BasicLit).Value)
+		return TV{x.tidLit(x.lookupType(tn)), tInt}
+	case "tagof":
+		return TV{x.tagOf(asTerm(arg(0).V)), tInt}
+	case "forallp":
+		id := n.Args[0].(*ast.Ident).Name
+		bv := tt.Bound(id, "Int")
+		body := asTerm(e.bind(id, bv, types.Typ[types.UnsafePointer]).eval(n.Args[1]).V)
+		return TV{tt.Forall([]*Term{bv}, body), tBool}
+	case "redeemed":
+		p := asTerm(arg(0).V)
+		h := x.heap(e.st, "G$redeemed", arraySort("Int", "Bool"))
+		return TV{tt.Select(h, p), tBool}
 	case "isnil":
 		a := asTerm(arg(0).V)
 		if a.Sort == "Val" {
@@ -571,7 +608,7 @@ func (e *Env) evalCall(n *ast.CallExpr) TV {
 	case "float32of":
 		return TV{tt.Sel("v-g", "vf32", sF32, asTerm(arg(0).V)), types.Typ[types.Float32]}
 	case "strof":
-		return TV{tt.Sel("v-s", "vstr", "String", asTerm(arg(0).V)), tString}
+		return TV{tt.Sel("v-s", "vstr", x.SS(), asTerm(arg(0).V)), tString}
 	case "boolof":
 		return TV{tt.Sel("v-b", "vbool", "Bool", asTerm(arg(0).V)), tBool}
 	case "ptrof":
@@ -605,11 +642,11 @@ func (e *Env) evalCall(n *ast.CallExpr) TV {
 		h := x.heap(e.st, "G$published", arraySort("Int", "Bool"))
 		return TV{tt.Select(h, p), tBool}
 	case "prefixof":
-		return TV{tt.App("str.prefixof", "Bool", asTerm(arg(0).V), asTerm(arg(1).V)), tBool}
+		return TV{x.strOp("str.prefixof", "Bool", asTerm(arg(0).V), asTerm(arg(1).V)), tBool}
 	case "suffixof":
-		return TV{tt.App("str.suffixof", "Bool", asTerm(arg(0).V), asTerm(arg(1).V)), tBool}
+		return TV{x.strOp("str.suffixof", "Bool", asTerm(arg(0).V), asTerm(arg(1).V)), tBool}
 	case "contains":
-		return TV{tt.App("str.contains", "Bool", asTerm(arg(0).V), asTerm(arg(1).V)), tBool}
+		return TV{x.strOp("str.contains", "Bool", asTerm(arg(0).V), asTerm(arg(1).V)), tBool}
 	case "sameheap":
 		// sameheap("H$Result$Errors"): heap unchanged since pre-state
 		hn, _ := strconv.Unquote(n.Args[0].(*ast.BasicLit).Value)
@@ -775,6 +812,9 @@ func (e *Env) lvalueTargets(ex interface{}) []modTarget {
 		case "owned":
 			p := e.eval(n.Args[0])
 			return []modTarget{{heap: "G$owned", sort: arraySort("Int", "Bool"), idx: asTerm(p.V)}}
+		case "redeemed":
+			p := e.eval(n.Args[0])
+			return []modTarget{{heap: "G$redeemed", sort: arraySort("Int", "Bool"), idx: asTerm(p.V)}}
 		case "ghost":
 			hn, _ := strconv.Unquote(n.Args[0].(*ast.BasicLit).Value)
 			return []modTarget{{heap: hn, whole: true}}
@@ -833,7 +873,11 @@ func (x *Exec) checkFrame(fr *Frame, st *State) {
 		}
 	}
 	for _, name := range x.allHeapNames(st) {
-		if strings.HasPrefix(name, "L$") || wholeOK[name] {
+		if strings.HasPrefix(name, "L$") || strings.HasPrefix(name, "I$") || wholeOK[name] {
+			continue
+		}
+		if con.Recycled && !(strings.HasPrefix(name, "H$") || strings.HasPrefix(name, "G$")) {
+			// maps and backing arrays owned by a pooled object are treated as part of that object
 			continue
 		}
 		cur, ok := st.heaps[name]
@@ -856,6 +900,16 @@ func (x *Exec) checkFrame(fr *Frame, st *State) {
 		}
 		// objects that did not exist at entry may be written freely
 		exc = append(exc, tt.Ge(tt.UF("birth$", "Int", p), fr.entry.clk))
+		if con.Recycled {
+			// objects sitting in a pool at entry are not visible to the caller either
+			red := x.heap(fr.entry, "G$redeemed", arraySort("Int", "Bool"))
+			exc = append(exc, tt.Select(red, p))
+			// ... including structs embedded in them
+			for _, fa := range x.embeddersOf(name) {
+				base := tt.UF("inv$"+fa, "Int", p)
+				exc = append(exc, tt.And(tt.Eq(p, tt.UF(fa, "Int", base)), tt.Select(red, base)))
+			}
+		}
 		g := tt.Forall([]*Term{p}, tt.Or(append(exc, tt.Eq(tt.Select(cur, p), tt.Select(old, p)))...))
 		x.oblige(fr, st, "frame", name, con.frameTags(), g, "only declared locations of "+name+" change")
 	}
@@ -872,14 +926,58 @@ func (c *Contract) frameTags() []string {
 			}
 		}
 	}
+	for _, e := range c.PanicEnsures {
+		for _, t := range e.Tags {
+			if !seen[t] {
+				seen[t] = true
+				out = append(out, t)
+			}
+		}
+	}
 	for _, t := range c.Sweep {
 		if !seen[t] {
 			seen[t] = true
 			out = append(out, t)
 		}
 	}
-	return out
+	var o2 []string
+	for _, t := range out {
+		if t != "local" {
+			o2 = append(o2, t)
+		}
+	}
+	return o2
 }
 
 // specFuncs: engine-defined specification functions.
 var specFuncs = map[string]func(e *Env, args []TV) TV{}
+
+// embeddersOf: for heap H$U$f, the field-address functions fa$T$g such that field g of struct T (package types) has struct type U.
+func (x *Exec) embeddersOf(heap string) []string {
+	if !strings.HasPrefix(heap, "H$") {
+		return nil
+	}
+	parts := strings.SplitN(heap[2:], "$", 2)
+	if len(parts) != 2 {
+		return nil
+	}
+	U := parts[0]
+	var out []string
+	sc := x.prog.Main.Pkg.Scope()
+	for _, n := range sc.Names() {
+		tn, ok := sc.Lookup(n).(*types.TypeName)
+		if !ok {
+			continue
+		}
+		st, ok := tn.Type().Underlying().(*types.Struct)
+		if !ok {
+			continue
+		}
+		for i := 0; i < st.NumFields(); i++ {
+			if _, isS := st.Field(i).Type().Underlying().(*types.Struct); isS && typeName(st.Field(i).Type()) == U {
+				out = append(out, "fa$"+typeName(tn.Type())+"$"+st.Field(i).Name())
+			}
+		}
+	}
+	return out
+}
